@@ -45,6 +45,9 @@ def run(idx: Index, rep: Report, tier: str):
     from .C04 import check_uhf_spin_sorts
     check_uhf_spin_sorts(idx, rep)
     check_open_shell_rdm_sum(idx, rep)
+    # the density matrices are those of the CI vector in the sector it was solved in: the same (n_alpha, n_beta) pair reaches kernel and make_rdm* (shared with C04)
+    from .C04 import check_fci_sector
+    check_fci_sector(idx, rep)
     rep.stats.update({"alias_" + k: v for k, v in an.stats.items()})
 
 
